@@ -217,6 +217,12 @@ def run(ctx):
              ctx.construct(cw), 'cache priming uses a key different from '
              'the one cachetools.cached computes', ctx.loc(cw))
 
+    # ---- R6 refresh independent of completion order -----------------------------
+    r6 = ctx.rule('R6', 'which joins are refreshed does not depend on which '
+                  'of them exist yet (i.e. on completion order)', 'GD')
+    from mstatic.rules import shared
+    shared.affected_walk_stops(ctx, r6)
+
     # ---- R5 merge direction -------------------------------------------------------------
     r5 = ctx.rule('R5', 'the version merge overwrites only towards the '
                   'strictly higher version; versions merge with max', 'GD')
@@ -241,6 +247,8 @@ def run(ctx):
              'expected one insertion of missing keys and one '
              'version-guarded overwrite, found %d/%d'
              % (unguarded_new, guarded), ctx.loc(mc))
+    from mstatic.rules import c05
+    c05.version_paths(ctx, r5)
     mv = prog.func(CV + '._merge_versions')
     r5.check(any(isinstance(n, ast.Call) and U.call_name(n) == 'max' and
                  {norm(a) for a in n.args} == {'ver_left[key]',
